@@ -55,6 +55,11 @@ void Exec::setup_objects() {
   }
   set_cpu_mask(env.mask);
   lib_mark = sim_lib_alloc_mark();
+  // object creation/deletion are library calls too: a fault inside them is attributed to the life-cycle entry point
+  const int stask = sim_current_task();
+  const int sslot = stask >= 0 && stask < 31 ? stask : 31;
+  sim_fctx.cur_call[sslot] = -2;
+  sim_fctx.cur_op[sslot] = OP_LIFE_MODULE;
   for (size_t i = 0; i < P.modules.size(); ++i) {
     uint64_t lo = sim_lib_alloc_mark();
     mods[i] = new_module_info(P.modules[i].n, P.modules[i].type ? NTT120 : FFT64);
@@ -66,10 +71,15 @@ void Exec::setup_objects() {
     obj_seq.push_back({lo, sim_lib_alloc_mark()});
   }
   ready = true;
+  sim_fctx.cur_call[sslot] = -1;
   if (env.protect_sources) sim_freeze_lib_blocks_since(lib_mark);  // modules and tables: immutable from creation to deletion
 }
 
 void Exec::release_all() {
+  const int rtask = sim_current_task();
+  const int rslot = rtask >= 0 && rtask < 31 ? rtask : 31;
+  sim_fctx.cur_call[rslot] = -2;
+  sim_fctx.cur_op[rslot] = OP_LIFE_MODULE;
   for (size_t i = 0; i < ptr.size(); ++i)
     if (ptr[i] && owned[i]) {
       sim_unfreeze(ptr[i]);
@@ -116,6 +126,7 @@ void Exec::release_all() {
       }
     obj_seq.clear();
   }
+  sim_fctx.cur_call[rslot] = -1;
 }
 
 uint64_t Exec::slot_bytes(int slot) const { return slot_alloc_bytes(P, P.slots[slot], mods); }
